@@ -54,6 +54,14 @@ CLAIMS = {
   "text": "Theorems: C17_mesh_roundtrip / write_mesh_roundtrip / layout_spec (the file is the unique byte string the format reader maps to (vertices, triangles); length 4+12nv+12nt), C17_reader_total for ALL byte strings (the reader returns what the format says or the mesh error, never another exception: C17_reader_never_crashes, short header and index >= count rejected), orientation identities over any commutative ring (det of transformed triangle = det R x det, winding flipped exactly when mirroring, mm->nm), C17_vtk_parses_on_guard (the writer's output is accepted by the subset grammar and parses back to the exported mesh), C17_links_exact. Correspondence: meshes empty..300 triangles x 11 dtypes, byte strings from a mutation grammar (truncation at every boundary +-1, index edits n-1/n/n+1/2^32-1), affines det>0/<0/tiny, GIfTI files through the real command, VTK parsed by an independent parser, link tables with 0..13 fragments.",
   "note": "The header-window length of Neuroglancer's VTK parser is not modelled (not confirmable offline); float evaluation of a determinant near zero is outside the proof.",
   "ref": "DESIGN.md §8 C17"},
+ "C06": {
+  "text": "Theorems over the faithful pointwise model of compute_dyadic_downscaling (factors inferred from sizes, half chunk, fetch factor, the eight octant assignments with NumPy slicing clamps and assignment broadcasting, np.empty cells as explicit Uninit, every error outcome): C06_tiling_sound (for EVERY geometry with positive sizes: a transition that does not raise wrote, in every chunk, the restriction of the downscaling of the whole previous level — no guard), C06_no_uninit, C06_ok_iff_compat (no error coincides with an executable compatibility predicate), C06_tiling_exact, locality of striding / exact integer averaging with edge padding / majority (C06_local_*), the level loop (C06_pyramid_sound: raises, or every level is the previous one downscaled once) and C06_generated_pairs (every pyramid the scale generator can produce is exact or fails with an error). Correspondence per run: 1500 hand-made (old chunk, new chunk, factor) transitions on both sides of compat through the real function with an in-memory reader/writer, 220 whole pyramids in memory, 36 through the real accessors (deep/flat, gzip, sharded; raw and compressed_segmentation), each twice with np.empty poisoned 0x00/0xFF; every scale compared with the model and with an independent whole-level reference.",
+  "note": "The downscaler is a parameter of the tiling theorems with a locality hypothesis proved for striding, integer averaging with edge padding and majority; averaging with an outside value, float32 data and uint64 averaging are outside the compared domain (C07's).",
+  "ref": "DESIGN.md §8 C06"},
+ "C08": {
+  "text": "Theorems over the model of fill_scales_for_dyadic_pyramid (integer core parameterised by delays/target/sizes/max_scales; delays, units and keys on binary64 via SpecFloat): C08_sizes_spec, C08_levels_are_0_to_count, C08_chunks_pow2_and_volume (power-of-two chunk sizes, |sum of exponents - 3t| <= 1), C08_no_assertion_can_fail, C08_factors_1_or_2, C08_later_start, C08_round_log2_spec/unique (exact: sqrt 2 irrational), C08_last_fits_iff (exact executable characterisation of when the last scale fits two target chunks) with C08_last_fits_on_guard / C08_last_fits_refuted, C08_keys_distinct_on_guard, C08_generated_scales_positive; the remaining deviations with witnesses: level count for delayed axes, resolutions below half a picometre, generated chunk-size pairs that compute_dyadic_downscaling rejects (C08_accepted_by_pyramid_refuted). Correspondence per run: ~9600 descriptions (sizes 1..10^9, integer and fractional resolutions, targets 1..256, max_scales, types/encodings, generate-scales-info on files) compared field by field; oracle = each clause of the statement evaluated on the implementation's output.",
+  "note": "math.log2/round and float repr are modelled by their mathematical definition (libm agreement tested each run); exactness of the binary64 multiplication by 2^k in resolution_spec is tested, not proved (resolution_spec_partial); keys_guard (exact doubling of the unit-scaled product) is checked on every generated description.",
+  "ref": "DESIGN.md §8 C08"},
 }
 def main():
     props = [json.loads(l) for l in open(os.path.join(V, "properties.jsonl"))]
